@@ -515,10 +515,19 @@ func loModule(L *LState) int {
 	return 1
 }
 
-var loopdetection = &LUserData{}
+// loadingMarker returns the value require stores in package.loaded[name] while
+// the module is being loaded. Scripts can reach it (and give it a metatable via
+// debug.setmetatable), so every state has a marker of its own.
+func loadingMarker(L *LState) *LUserData {
+	if L.G.loading == nil {
+		L.G.loading = &LUserData{Metatable: LNil}
+	}
+	return L.G.loading
+}
 
 func loRequire(L *LState) int {
 	name := L.CheckString(1)
+	loopdetection := loadingMarker(L)
 	loaded := L.GetField(L.Get(RegistryIndex), "_LOADED")
 	lv := L.GetField(loaded, name)
 	if LVAsBool(lv) {
